@@ -368,6 +368,7 @@ class Den:
     def run_ops(self, n, ops, now, started):
         st = self.st[n.label]
         emit = None
+        self.thrown = False
         for tok in ops:
             op, num, tag = parse_op(tok)
             if op in ("s", "S"):
@@ -396,6 +397,9 @@ class Den:
                 st["pend"] = set()
             elif op == "o":
                 emit = num
+            elif op == "x":
+                self.thrown = True      # the ops before it took effect; the rest is not executed
+                break
         return emit
 
     # ---- start
@@ -559,12 +563,17 @@ class Den:
                 st["k"] = kk + 1
                 after = self.qstr(st, t)
                 tail = " a=%s" % self.desc(a, t) if a else ""
-                # advance (after user code): consume due events when the node was scheduled-now at entry
+                # advance (after user code, also after a captured failure): consume due events when
+                # the node was scheduled-now at entry; pending later events stay armed
                 if was_due:
                     st["pend"] = {e for e in st["pend"] if e[0] > t}
-                if emit is not None:
-                    write(n.label, emit)
-                logs.append("E %s %d k=%d %s %s%s" % (n.label, t, kk, before, after, tail))
+                if self.thrown:
+                    logs.append("E %s %d k=%d %s THROW" % (n.label, t, kk, before))
+                    err = "boom-eval-script"
+                else:
+                    if emit is not None:
+                        write(n.label, emit)
+                    logs.append("E %s %d k=%d %s %s%s" % (n.label, t, kk, before, after, tail))
             elif k == "sink":
                 logs.append("T %s %d %d" % (n.plabel, t, self.ival(a)))
             elif k == "thrower":
@@ -945,6 +954,29 @@ def gen_try(rng, capture_kind):
     # an independent branch that must not be disturbed
     body.append(Stmt(lbl, "acc", [1])); a = lbl; lbl += 1
     body.append(Stmt(lbl, "sink", [a])); lbl += 1
+    p.root = kahn_order(body)
+    return p
+
+
+def gen_sched_capture(rng):
+    """a node that owns a NodeScheduler, is also driven by an input, throws in some of its evaluations
+    (with scheduler events pending / firing) and has error capture on: later wake-ups must survive"""
+    p = Prog()
+    p.end = p.start + rng.choice([14, 20])
+    p.ticks[901] = gen_ticks(rng, p.start, rng.randint(2, 6), 12)
+    sc = gen_script(rng)
+    while len(sc) < 5:
+        sc.append(["s%d" % rng.choice([1, 2, 3])])
+    for k in rng.sample(range(1, len(sc)), rng.randint(1, 2)):
+        pos = rng.randint(0, len(sc[k]))
+        sc[k] = sc[k][:pos] + ["x"] + sc[k][pos:]
+    p.scripts[902] = sc
+    body = [Stmt(1, "src", [901])]
+    if rng.random() < 0.7:
+        body.append(Stmt(2, "script", [902, 1]))
+    else:
+        body.append(Stmt(2, "script", [902]))
+    body += [Stmt(3, "errts", [2]), Stmt(4, "sink", [2]), Stmt(5, "acc", [1]), Stmt(6, "sink", [5])]
     p.root = kahn_order(body)
     return p
 
